@@ -1019,3 +1019,111 @@ Section Local.
       unfold text, char in *. rewrite Hfu, Htd in Hsh. rewrite Hsh in H2. now injection H2 as <-.
   Qed.
 End Local.
+
+(* ================================================================================================ *)
+(* 5. link to the abstract framework of Model/ParaSplit.v                                           *)
+(* ================================================================================================ *)
+Require Import Overlap Condense ParaSplit ParaSplitProofs.
+From Coq Require Import Sorting.Permutation.
+
+(* the kind class of a lexer token: what the iterators and the quote pairing look at *)
+Definition classify (k : Lexer.tkind) : ParaSplit.kind :=
+  match k with
+  | Lexer.KParagraphBreak => ParaSplit.KBreak
+  | Lexer.KNewline _ => ParaSplit.KNewline
+  | Lexer.KSpace _ => ParaSplit.KSpace
+  | Lexer.KWord => ParaSplit.KWord
+  | Lexer.KNumber _ => ParaSplit.KNumber
+  | Lexer.KPunct PPeriod => ParaSplit.KPeriod
+  | Lexer.KPunct PBang => ParaSplit.KBang
+  | Lexer.KPunct PQuestion => ParaSplit.KQuestion
+  | Lexer.KPunct PComma => ParaSplit.KComma
+  | Lexer.KPunct PColon => ParaSplit.KColon
+  | Lexer.KPunct (PQuote tw) => ParaSplit.KQuote tw
+  | Lexer.KPunct _ => ParaSplit.KPunct
+  | _ => ParaSplit.KOther
+  end.
+Definition to_ps (t : Lexer.token) : ParaSplit.tok := ParaSplit.mktok (Lexer.tspan t) (classify (tkind_of t)).
+
+(* moving document tokens of D behind a P of n characters and k tokens (twin_loc is a token index) *)
+Definition shift_lkind (k : nat) (kd : Lexer.tkind) : Lexer.tkind :=
+  match kd with
+  | Lexer.KPunct (PQuote (Some j)) => Lexer.KPunct (PQuote (Some (j + k)))
+  | other => other
+  end.
+Definition shift_token2 (n k : nat) (t : Lexer.token) : Lexer.token :=
+  Lexer.mktok (push_by (Lexer.tspan t) n) (shift_lkind k (tkind_of t)).
+
+Lemma to_ps_shift n k t : to_ps (shift_token2 n k t) = shift_tok n k (to_ps t).
+Proof.
+  destruct t as [sp kd]. unfold to_ps, shift_token2, shift_tok. cbn [Lexer.tspan tkind_of ParaSplit.tspan ParaSplit.tkind].
+  f_equal. destruct kd as [|p| | | | | | | | | |]; try reflexivity.
+  destruct p; try reflexivity. destruct twin_loc; reflexivity.
+Qed.
+
+(* Document::new_plain_english(s).tokens as kind classes ([] if the model panics: excluded by C01/C02) *)
+Definition doc_tokens (u : uni) (s : text) : list ParaSplit.tok :=
+  match document_plain u s with Ok ts => map to_ps ts | Panic _ => [] end.
+
+(* the premise of the property on P: no double quote, a sentence terminator, a blank line *)
+Definition quote_free (P : text) : Prop := Forall (fun c => mem_n c quote_chars = false) P.
+Definition is_terminator_char (c : N) : Prop := c = 46%N \/ c = 33%N \/ c = 63%N.
+Definition c12_premise (P : text) : Prop :=
+  quote_free P /\ exists P0 t, P = P0 ++ [t; NL; NL] /\ is_terminator_char t.
+
+Lemma premise_ends_nl P : c12_premise P -> ends_nl P.
+Proof.
+  intros [_ (P0 & t & -> & _)]. right. exists (P0 ++ [t; NL]). now rewrite <- app_assoc.
+Qed.
+
+Section MainLexer.
+  Variable u : uni.
+  Hypothesis nl_whitespace : u_whitespace u NL = true.
+  Hypothesis nl_not_numeric : u_numeric u NL = false.
+  Hypothesis nl_not_alphabetic : u_alphabetic u NL = false.
+  Hypothesis nl_not_lingual : u_lingual u NL = false.
+
+  (* what is left of H_lex_split once the lexer is done: the condense passes of Document::parse, run on
+     the glued raw tokens, give the glued document tokens (monitored on the implementation at document
+     level, separately from the lexer-level relation) *)
+  Definition condense_split : Prop :=
+    forall P D tp td, c12_premise P -> no_leading_nl D ->
+      plain_parse u P = Ok tp -> plain_parse u D = Ok td ->
+      exists A B,
+        document_passes P tp = Ok A /\ document_passes D td = Ok B /\
+        document_passes (P ++ D) (tp ++ map (shift_token (length P)) td)
+          = Ok (A ++ map (shift_token2 (length P) (length A)) B) /\
+        ends_in_break (map to_ps A) /\ in_bounds (length P) (map to_ps A).
+
+  Variable chunk_fn : list ParaSplit.tok -> text -> list lint.
+  Variable rules : list (list ParaSplit.tok -> text -> list lint).
+  Hypothesis H_condense_split : condense_split.
+  Hypothesis H_rules_local : Forall para_local rules.
+
+  Lemma doc_tokens_split P D : c12_premise P -> no_leading_nl D ->
+    doc_tokens u (P ++ D)
+    = doc_tokens u P ++ map (shift_tok (length P) (length (doc_tokens u P))) (doc_tokens u D) /\
+    ends_in_break (doc_tokens u P) /\ in_bounds (length P) (doc_tokens u P).
+  Proof.
+    intros HP HD.
+    destruct (plain_parse_split u nl_whitespace nl_not_numeric nl_not_alphabetic nl_not_lingual P D
+                (premise_ends_nl P HP) HD) as (tp & td & Hp & Hd & Hpd).
+    destruct (H_condense_split P D tp td HP HD Hp Hd) as (A & B & HA & HB & HAB & Hend & Hin).
+    unfold doc_tokens, document_plain. rewrite Hp, Hd, Hpd. cbn [bind]. rewrite HA, HB, HAB.
+    rewrite map_app, !map_map, map_length. split; [|split; assumption].
+    f_equal. apply map_ext. intros t. apply to_ps_shift.
+  Qed.
+
+  Theorem main_lexer_partial P D : c12_premise P -> no_leading_nl D ->
+    Permutation (lints (doc_tokens u) chunk_fn rules (P ++ D))
+                (lints (doc_tokens u) chunk_fn rules P
+                 ++ map (shift_lint (length P)) (lints (doc_tokens u) chunk_fn rules D)).
+  Proof.
+    intros HP HD.
+    apply (main_partial (doc_tokens u) (fun P => c12_premise P /\ True) chunk_fn rules); try exact H_rules_local.
+    - intros P' D' [HP' _] HD'. apply (doc_tokens_split P' D' HP'). exact HD'.
+    - intros P' [HP' _]. destruct (doc_tokens_split P' [] HP' I) as (_ & H1 & H2). split; assumption.
+    - split; [exact HP|exact I].
+    - exact HD.
+  Qed.
+End MainLexer.
